@@ -28,7 +28,7 @@ CRASH = {10: 'RecursionError', 11: 'KeyError', 12: 'TypeError', 13: 'ValueError'
          15: 'ZeroDivisionError', 16: 'StopIteration', 17: 'AttributeError'}
 OUTCOME = dict(CRASH)
 OUTCOME.update({0: 'returned', 1: 'RuntimeError', 19: 'other exception'})
-SORTK = {'id': 'KId', 'prio': 'KPrio', 'name': 'KName', 'bad': 'KBad'}
+SORTK = {'id': 'KId', 'prio': 'KPrio', 'name': 'KName', 'bad': 'KBad', 'est': 'KEst'}
 EMPTY = {'heap': [], 'wroots': []}
 
 N_QUICK = 560
@@ -243,6 +243,12 @@ CORPUS = [
                    ['ChSort', 0, 'prio', False], ['ChSort', 0, 'prio', True], ['ChSort', 0, 'id', True], ['ChSort', 0, 'bad', False],
                    T(4), ['ChAppend', 0, 4], ['ChSort', 0, 'prio', False], ['ChReorder', 0, [3, 1]], ['ChReorder', 0, [3, 3]],
                    ['ChReorder', 0, [9]], ['ChReorder', 0, []]]),
+    # sorting by an attribute whose value is None for a child behind an out-of-order pair: TypeError, nothing reordered
+    ('sort by estimate with a None value', [W, T(0, 'a', None, 24), T(1, 'b', None, 8), T(2, 'c', None, 16), T(3, 'd'), T(4, 'e', None, 0),
+                                            ['SetChildren', 0, [1, 2, 3, 4, 5]], ['ChSort', 0, 'est', False], ['ChSort', 0, 'est', True],
+                                            ['SetEst', 4, 12], ['ChSort', 0, 'est', False], ['ChSort', 0, 'est', True],
+                                            T(5), ['OpFloordiv', 1, [6]], ['ChSort', 1, 'est', False], T(6), ['OpFloordiv', 1, [7]],
+                                            ['ChSort', 1, 'est', True]]),
     ('list level operators', [W, T(1), T(2), T(3), T(4), ['SetChildren', 0, [1, 2]], [['LstShift', PR, [1, 2], [3]], {'src': ['tasks', 0]}],
                               [['LstShift', SU, [1, 2], [4, 1]], {'src': ['roots', 0]}],
                               [['LstSetParent', [1, 2], 3], {'src': ['tasks', 0]}], [['LstSetParent', [1, 2], 4], {'src': ['tasks', 0]}]]),
